@@ -2,12 +2,13 @@ import SageoptModel.Drv.GF2
 import SageoptModel.Drv.Solvers
 import SageoptModel.Drv.Sig
 import SageoptModel.Drv.SigL
+import SageoptModel.Drv.SigCalc
 open Lean
 
 namespace Sageopt.Drv
 
 def allHandlers : List (String × Handler) :=
-  GF2.handlers ++ Solvers.handlers ++ Sig.handlers ++ SigL.handlers
+  GF2.handlers ++ Solvers.handlers ++ Sig.handlers ++ SigL.handlers ++ SigCalc.handlers
 
 def dispatch (line : String) : String :=
   match Json.parse line with
